@@ -65,7 +65,7 @@ func scenarioC09(c *hlib.RunCtx) *hlib.Violation {
 	v := scenarioC09x(c)
 	if v != nil {
 		switch v.Invariant {
-		case "begin", "end", "name-date", "old-file-written", "rotation-liveness", "well-formed", "value-bounded", "early-rotation":
+		case "begin", "end", "name-date", "old-file-written", "rotation-liveness", "well-formed", "value-bounded", "early-rotation", "conservation", "nothing-pending", "upper-bound":
 			return v
 		case "panic", "unbounded-loop", "waits-forever", "memory-fault":
 			// The circumstances of this world (odd week-end files, clock set back,
@@ -295,6 +295,7 @@ func scenarioC09x(c *hlib.RunCtx) *hlib.Violation {
 	}
 	// (1) every created file: begin, end, name
 	wkNow, _ := os.ReadFile(wkPath)
+	var prevEnd time.Time // recorded end of the first process's previous file
 	for _, cf := range created {
 		data, err := os.ReadFile(cf.path)
 		if err != nil || len(data) < refformat.PageSize {
@@ -324,6 +325,14 @@ func scenarioC09x(c *hlib.RunCtx) *hlib.Violation {
 			w.fail("end", "%s: TimeBegin %s TimeEnd %s: not midnight UTC one to seven days later", filepath.Base(cf.path), d.Meta["TimeBegin"], d.Meta["TimeEnd"])
 			break
 		}
+		// the next span's file is started when the recorded end is reached, not before
+		if !strings.Contains(filepath.Base(cf.path), "prog2") {
+			if !prevEnd.IsZero() && !steppedBack && cf.now.Before(prevEnd) {
+				w.fail("early-rotation", "%s was created when the clock read %s, before the end %s of the file in use", filepath.Base(cf.path), cf.now.Format(time.RFC3339Nano), prevEnd.Format(time.RFC3339))
+				break
+			}
+			prevEnd = endT
+		}
 		cfgDay := -1
 		switch wkKind {
 		case 0:
@@ -346,6 +355,10 @@ func scenarioC09x(c *hlib.RunCtx) *hlib.Violation {
 				break
 			}
 		}
+	}
+	// (2) nothing is lost across rotations
+	if w.viol == nil {
+		w.checkConservation(true)
 	}
 	// (3) after the end was reached (and the timer's minimum delay elapsed) the
 	// process records into a file whose span covers the present.
